@@ -45,6 +45,58 @@ def loop_anchors():
     return _ANCHORS
 
 
+_LOCALS = None
+
+
+def local_anchors():
+    global _LOCALS
+    if _LOCALS is None:
+        import json
+        p = os.path.join(os.path.dirname(os.path.dirname(os.path.abspath(__file__))), "local_anchors.json")
+        try:
+            with open(p) as f:
+                _LOCALS = json.load(f)
+        except OSError:
+            _LOCALS = {}
+    return _LOCALS
+
+
+def local_renames(key, node):
+    """{baseline local name: current local name} for locals of `key` that were *purely renamed* since the pinned tree:
+    a baseline name that no longer exists is paired with a new name whose first binding has the same text once the
+    new names are replaced by the old ones (fixpoint, so chains like `q = ..; eligible = [.. q ..]` resolve).  Anything
+    that does not match exactly is left alone (the contract then fails with 'unknown name', i.e. undecided)."""
+    import re
+    base = local_anchors().get(key)
+    if not base:
+        return {}
+    cur = frontend.local_bindings(node)
+    bnames, cnames = [b[0] for b in base], [c[0] for c in cur]
+    gone = [b for b in base if b[0] not in cnames]
+    new = [c for c in cur if c[0] not in bnames]
+    if not gone or not new:
+        return {}
+    m = {}
+
+    def norm(text, extra):
+        pairs = dict((v, k) for k, v in m.items())
+        pairs.update(extra)
+        for cn, bn in pairs.items():
+            text = re.sub(r"(?<![A-Za-z0-9_])%s(?![A-Za-z0-9_])" % re.escape(cn), bn, text or "")
+        return text
+    changed = True
+    while changed:
+        changed = False
+        for g, gt in gone:
+            if g in m:
+                continue
+            cands = [n for n, nt in new if n not in m.values() and norm(nt, {n: g}) == gt]
+            if len(cands) == 1:
+                m[g] = cands[0]
+                changed = True
+    return m
+
+
 class FunContract:
     """contract of a function-valued parameter / external callable"""
 
@@ -884,6 +936,10 @@ class Verifier:
         ts = d.get(name)
         if ts is None and self.cur is not None and self.cur.key == key:
             ts = self.cur.locals.get(name)
+            if ts is None:
+                old_name = getattr(self, "renames_rev", {}).get(name)       # a purely renamed local keeps its declared type
+                if old_name is not None:
+                    ts = self.cur.locals.get(old_name) or d.get(old_name)
         if ts is None:
             return None
         return self.types.parse(ts)
@@ -997,7 +1053,8 @@ class Verifier:
                 if k not in yields:
                     lost.add(k)
             else:
-                if k.split("@")[0] not in assigned:
+                base = k.split("@")[0]
+                if base not in assigned and getattr(self, "renames", {}).get(base) not in assigned:
                     lost.add(k)
         return lost
 
@@ -1035,6 +1092,8 @@ class Verifier:
             self.feas_rlimit = int(c.feas_timeout_ms * float(os.environ.get("PYVC_FEAS_RLIMIT_PER_MS", "1500")))
         mod, cls, node = frontend.find_function(c.key, self.repo)
         limit = c.max_paths or self.max_paths
+        self.renames = local_renames(c.key, node)           # baseline local name -> current name (pure renames only)
+        self.renames_rev = {v: k for k, v in self.renames.items()}
         lost = self.lost_cut_points(c, node)
         if lost:
             # a cut point whose anchor (assigned local / call / yield) no longer exists in the function would silently not
@@ -1085,6 +1144,10 @@ class Verifier:
                     if isinstance(st, ast.Expr) and isinstance(st.value, ast.Constant):
                         continue
                     src = ast.unparse(st)
+                    if getattr(self, "renames_rev", None):
+                        import re as _re
+                        for cn, bn in self.renames_rev.items():     # unreachable_ok entries quote the pinned source's names
+                            src = _re.sub(r"(?<![A-Za-z0-9_])%s(?![A-Za-z0-9_])" % _re.escape(cn), bn, src)
                     if any(src.startswith(o) for o in ok_src):
                         continue
                     want.add(st.lineno)
